@@ -26,6 +26,9 @@ Mutations ==
     \cup UNION {{M("setlen", i, v) : v \in {x \in LenClasses(Spans[i]) : x >= 0}} : i \in DOMAIN Spans}
     \cup {M(op, i, 0) : op \in {"delete", "duplicate", "toggleNC", "toggleFW", "toggle16", "emptyPayload"}, i \in DOMAIN Spans}
     \cup {M("retag", i, t) : i \in DOMAIN Spans, t \in {0, 1, 31, 32, 8191}}
+    \* a node whose payload has the length of an imprint (algorithm id + digest): the id replaced by every defined id and two undefined ones --
+    \* the digest may then be of another algorithm's length, or belong to an algorithm the build cannot compute
+    \cup {M("setfirst", i, v) : i \in {k \in DOMAIN Spans : Spans[k].len \in {21, 29, 33, 49, 65}}, v \in 0..12 \cup {126, 255}}
 (* every span lies inside the object and inside its predecessor's payload or after it: the seed itself is well formed *)
 WellFormedSeed == \A i \in DOMAIN Spans : Spans[i].off >= 0 /\ Spans[i].off + Spans[i].hdr + Spans[i].len <= NBytes /\ Spans[i].hdr \in {2, 4}
 ASSUME WellFormedSeed
